@@ -59,7 +59,16 @@ func CheckTyped(eng typed.Engine, s *rs.Schema, c TypedCase) (fs []core.Finding,
 	}
 	var n datamodel.Node
 	var err error
-	if pan := core.Guard(func() { n, err = ref.Build(eng.Proto(s, c.Type, true), repr) }); pan != "" || err != nil {
+	// the value is assembled at type level (field names, member names), so that reading the text back
+	// through the representation builder is the first time a serial key is mapped to a field; a map
+	// with struct keys can only be fed at representation level
+	if pan := core.Guard(func() {
+		if s.ComplexKeys(t) {
+			n, err = ref.Build(eng.Proto(s, c.Type, true), repr)
+		} else {
+			n, err = ref.Build(eng.Proto(s, c.Type, false), s.FeedType(t, c.Value))
+		}
+	}); pan != "" || err != nil {
 		return nil, false // that the binding builds its own values is C08's business
 	}
 	encode := func(n datamodel.Node) (string, string) {
